@@ -3,6 +3,9 @@ package apph
 import (
 	"encoding/hex"
 
+	"github.com/ethereum/go-ethereum/common"
+	ethcrypto "github.com/ethereum/go-ethereum/crypto"
+
 	"fmt"
 	ctrlertypes "github.com/rigochain/rigo-go/ctrlers/types"
 	"math/big"
@@ -40,25 +43,26 @@ type propInfo struct {
 }
 
 type Sim struct {
-	rng     *rand.Rand
-	H       *History
-	node    *Node
-	users   []Key
-	vals    []Key
-	all     []Key
-	height  int64
-	sets    map[int64][]ValUp // validator set that signs block h
-	nonces  map[string]uint64
-	bal     map[string]*big.Int
-	stakes  []stakeInfo
-	props   []propInfo
-	params  Params
-	rewards map[string]*big.Int
-	recent  []*Built // recently delivered transactions (for replays)
-	profile string
-	pending []*TxSpec         // follow-up transactions of multi-step generator moves
-	lastSig map[string][]byte // signature bytes of the last successful transaction per sender
-	script  func(s *Sim, h int64) []*TxSpec
+	rng       *rand.Rand
+	H         *History
+	node      *Node
+	users     []Key
+	vals      []Key
+	all       []Key
+	height    int64
+	sets      map[int64][]ValUp // validator set that signs block h
+	nonces    map[string]uint64
+	bal       map[string]*big.Int
+	stakes    []stakeInfo
+	props     []propInfo
+	params    Params
+	rewards   map[string]*big.Int
+	recent    []*Built // recently delivered transactions (for replays)
+	profile   string
+	pending   []*TxSpec         // follow-up transactions of multi-step generator moves
+	lastSig   map[string][]byte // signature bytes of the last successful transaction per sender
+	script    func(s *Sim, h int64) []*TxSpec
+	contracts [][]byte // deployed contract addresses (top-level deployments)
 }
 
 var e18 = new(big.Int).Exp(big.NewInt(10), big.NewInt(18), nil)
@@ -245,6 +249,13 @@ func (s *Sim) genTx() *TxSpec {
 func (s *Sim) genTx0() *TxSpec {
 	r := s.rng
 	zero := make([]byte, 20)
+	if s.profile != "noevm" && s.script == nil {
+		if e := r.Intn(100); e < 3 || (e < 10 && len(s.contracts) > 0) {
+			if t := s.genEvmTx(e < 3 || len(s.contracts) == 0); t != nil {
+				return t
+			}
+		}
+	}
 	k := r.Intn(100)
 	switch {
 	case k < 20: // transfer
@@ -642,6 +653,9 @@ func (s *Sim) Step() error {
 			}
 		}
 		d := s.node.Deliver(bt.Spec.Type, bt.Bytes)
+		if d.Panic == "" {
+			s.observeEvm(bt, d)
+		}
 		b.Txs = append(b.Txs, bt)
 		o.Delivers = append(o.Delivers, d)
 		s.H.Stats["tx:"+bt.Spec.Note+fmt.Sprintf(":code%d", d.Code)]++
@@ -866,4 +880,91 @@ func SeqNonce(txs []*TxSpec) []*TxSpec {
 		seen[k]++
 	}
 	return txs
+}
+
+// genEvmTx: contract deployments, calls, plain transfers to contracts, and native transactions whose
+// receiver field names a contract (the receiver is not constrained for SETDOC)
+func (s *Sim) genEvmTx(deploy bool) *TxSpec {
+	r := s.rng
+	from := s.pick(s.all)
+	if deploy {
+		progs := [][]byte{progStore(r), progForward(), progReverter(), progBalanceReader(), progSuicide()}
+		names := []string{"store", "forward", "reverter", "balance-reader", "suicide"}
+		i := r.Intn(len(progs))
+		t := s.baseTx(6, from, make([]byte, 20))
+		t.Data = deployer(progs[i])
+		t.Amount = fmt.Sprint(r.Intn(3) * 1000)
+		t.Gas = uint64(200000 + r.Intn(400000))
+		t.Note = "evm-deploy:" + names[i]
+		return t
+	}
+	c := s.contracts[r.Intn(len(s.contracts))]
+	switch r.Intn(5) {
+	case 0, 1:
+		t := s.baseTx(6, from, c)
+		arg := word(big.NewInt(int64(r.Intn(50))).Bytes())
+		if r.Intn(2) == 0 {
+			arg = word(s.pick(s.all).Addr)
+		}
+		t.Data = arg
+		t.Amount = fmt.Sprint(r.Intn(4) * 500)
+		t.Gas = uint64(100000 + r.Intn(400000))
+		if r.Intn(10) == 0 {
+			t.Gas = uint64(21000 + r.Intn(30000))
+		}
+		t.Note = "evm-call"
+		return t
+	case 2:
+		t := s.baseTx(1, from, c)
+		t.Amount = fmt.Sprint(100 + r.Intn(900))
+		t.Gas = uint64(100000 + r.Intn(400000))
+		t.Note = "evm-transfer-to-contract"
+		return t
+	case 3:
+		t := s.baseTx(7, from, c)
+		t.DocName = fmt.Sprintf("name-%d", r.Intn(4))
+		t.DocURL = fmt.Sprintf("https://doc/%d", r.Intn(4))
+		t.Note = "setdoc-to-contract-address"
+		return t
+	default:
+		t := s.baseTx(8, from, c)
+		rw := s.rewards[string(from.Addr)]
+		if rw == nil {
+			rw = big.NewInt(0)
+		}
+		t.WithdrawReq = frac(rw, 1, 3)
+		t.Note = "withdraw-to-contract-address"
+		return t
+	}
+}
+
+// observeEvm reads, right after a delivery that may have gone through the EVM, the balances and
+// nonces of all watched accounts: the observed effect the model's EVM oracle is given
+func (s *Sim) observeEvm(bt *Built, d DeliverObs) {
+	t := bt.Spec
+	isContractTo := false
+	for _, c := range s.contracts {
+		if string(c) == string(t.To) {
+			isContractTo = true
+		}
+	}
+	if t.Type != 6 && !isContractTo {
+		return
+	}
+	e := &EvmEffect{OK: d.Code == 0, Gas: d.GasUsed}
+	if d.Code == 0 && t.Type == 6 && isZero(t.To) {
+		created := ethcrypto.CreateAddress(common.BytesToAddress(t.From), t.Nonce)
+		e.Created = created[:]
+		s.contracts = append(s.contracts, created[:])
+		s.watchAddr(created[:])
+	}
+	if d.Code == 0 {
+		ac := s.node.App.VerifAcctCtrler()
+		for _, a := range s.H.WatchA {
+			if acct := ac.FindAccount(a, true); acct != nil {
+				e.Accts = append(e.Accts, AcctObs{Addr: a, Bal: acct.GetBalance().Dec(), Nonce: acct.GetNonce()})
+			}
+		}
+	}
+	bt.Evm = e
 }
